@@ -29,9 +29,12 @@ import c32
 
 PROP = "C34b"
 
-REUSE_ON0 = {"VERYL_DUT_REUSE": "1", "VERYL_DUT_REUSE_MIN_BYTES": "0"}
-REUSE_ON = {"VERYL_DUT_REUSE": "1"}
-REUSE_OFF = {"VERYL_DUT_REUSE": "0"}
+# VERYL_VERIF_STATS=1: once the hook requested in notes/C34b.md exists, `veryl test` prints
+# "VERIF dut_reuse hit=.. compute=.. dealiased=.." on stderr; until then the variable is ignored.
+REUSE_ON0 = {"VERYL_DUT_REUSE": "1", "VERYL_DUT_REUSE_MIN_BYTES": "0", "VERYL_VERIF_STATS": "1"}
+REUSE_ON = {"VERYL_DUT_REUSE": "1", "VERYL_VERIF_STATS": "1"}
+REUSE_OFF = {"VERYL_DUT_REUSE": "0", "VERYL_VERIF_STATS": "1"}
+STATS_RE = re.compile(r"VERIF dut_reuse hit=(\d+) compute=(\d+) dealiased=(\d+)")
 
 _SYMBOL = {}
 
@@ -147,8 +150,18 @@ def check_suite(run, suite, scratch, rng, npairs, backends, probe=True, prop=PRO
             continue
         run.count("runs")
         run.count("runs_reuse_on" if reuse_on else "runs_reuse_off")
+        m = STATS_RE.search(r["stderr_tail"])
+        if m:
+            run.count("runs_with_reuse_stats_line")
+            if reuse_on:
+                run.count("reuse_hits_observed", int(m.group(1)))
+                run.count("reuse_computes_reported", int(m.group(2)))
+                if int(m.group(1)) > 0:
+                    run.count("suites_with_reuse_hits")
+            elif int(m.group(1)) > 0:
+                run.count("reuse_hits_reported_with_reuse_off", int(m.group(1)))
         run.seen("configs", f"{s.get('cpus') or 'all'}|{s['order_style']}|{s['backend']}|"
-                            + ",".join(f"{k}={v}" for k, v in sorted(s["env"].items())))
+                            + ",".join(f"{k}={v}" for k, v in sorted(s["env"].items()) if k != "VERYL_VERIF_STATS"))
         run.seen("completion_orders", hash_str(" ".join(r["order"])))
         if s["backend"] not in refs:
             refs[s["backend"]] = (r, s)
@@ -198,8 +211,8 @@ def main():
     run.assume("VERYL_DUT_REUSE / VERYL_DUT_REUSE_MIN_BYTES are read once per process (Config::apply_env, inst.rs LazyLock)")
     run.assume("no native observable for reuse hits exists; the gdb breakpoint probe on try_reuse_or_claim "
                "(rsi=key, edx=alias_enabled, r9d=dut_reuse; self-validated) is best effort -- see notes/C34b.md")
-    nsuites = args.budget("suites", 3, 60)
-    npairs = args.budget("pairs", 4, 10)
+    nsuites = args.budget("suites", 3, 24)
+    npairs = args.budget("pairs", 4, 8)
     max_tests = args.budget("max_tests", 20, 40)
     probe_every = args.budget("probe_every", 3, 6)     # the gdb run is slow (symbol loading of a 260 MB binary)
     scratch = run.scratch()
